@@ -403,6 +403,36 @@ fn run_compress(ctx: &mut Ctx) {
     }
     let temp = events.iter().find(|(op, p, a, ret)| *op == sys::Op::Open && a & libc::O_CREAT as i64 != 0 && *ret >= 0 && p != name && !p.starts_with('/') && !before.contains_key(p)).map(|(_, p, _, _)| p.clone());
     let Some(temp) = temp else { return };
+    // a third of the repeats: nothing planted, nothing failing -- the very same compression once
+    // more with --force-create over its own result
+    if gen::chance(1, 3) {
+        if !stdin {
+            scen::put_file("src.bin", &data);
+        }
+        scen::set_stdin(if stdin { Some(data.clone()) } else { None });
+        scen::draw_schedule();
+        // (compress_args plants the metadata files: before the listing is taken)
+        let args4: Vec<std::ffi::OsString> = {
+            let mut a: Vec<std::ffi::OsString> = scen::compress_args(&spec, if stdin { None } else { Some("src.bin") }, "OUTPUT", true).into_iter().map(Into::into).collect();
+            *a.last_mut().unwrap() = name_os.clone();
+            a
+        };
+        let before4 = list_dir("dir.d");
+        let r4 = crate::cli::run_cli_os(&args4);
+        scen::set_stdin(None);
+        let after4 = list_dir("dir.d");
+        simkit::count("probe:compress-again-over-own-result");
+        if !r4.outcome.is_success() {
+            ctx.fail(&format!("compress-outcome:{}", r4.outcome.class()), format!("the same compression again with --force-create ended with {}; {}", r4.outcome.short(), desc));
+            return;
+        }
+        let new: Vec<&String> = after4.keys().filter(|k| !before4.contains_key(*k)).collect();
+        let gone: Vec<&String> = before4.keys().filter(|k| !after4.contains_key(*k)).collect();
+        if !new.is_empty() || !gone.is_empty() {
+            ctx.fail("leftover-files", format!("the same compression again with --force-create: new files {:?}, lost files {:?}; {}", new, gone, desc));
+        }
+        return;
+    }
     // half of the repeats instead: removing the temporary file fails (EPERM: an append-only or
     // sticky directory, EBUSY: a bind mount). A compress that cannot clean up may fail; it may
     // not report success with its temporary file still there.
@@ -413,16 +443,16 @@ fn run_compress(ctx: &mut Ctx) {
         scen::set_stdin(if stdin { Some(data.clone()) } else { None });
         scen::draw_schedule();
         let errno = *gen::t(|t| t.pick(&[libc::EPERM, libc::EBUSY, libc::EIO]));
-        let before3 = list_dir("dir.d");
-        sys::with(|s| {
-            s.log.clear();
-            s.add_fault(&temp, sys::Op::Unlink, 0, sys::FaultAction::Errno(errno));
-        });
         let args3: Vec<std::ffi::OsString> = {
             let mut a: Vec<std::ffi::OsString> = scen::compress_args(&spec, if stdin { None } else { Some("src.bin") }, "OUTPUT", true).into_iter().map(Into::into).collect();
             *a.last_mut().unwrap() = name_os.clone();
             a
         };
+        let before3 = list_dir("dir.d");
+        sys::with(|s| {
+            s.log.clear();
+            s.add_fault(&temp, sys::Op::Unlink, 0, sys::FaultAction::Errno(errno));
+        });
         let r3 = crate::cli::run_cli_os(&args3);
         scen::set_stdin(None);
         let after3 = list_dir("dir.d");
